@@ -18,7 +18,8 @@ Paths == {Program[i].path : i \in 1..Len(Program)} \cup {Program[i].dst : i \in 
 HadOld == Prog.had_old = 1     \* was there a previous data.json?
 Leftover == Prog.leftover      \* chunks of a stale scratch file left behind by an earlier interrupted save (0 = none)
 
-VARIABLES pc, disk, buf, open, wrote, ended, how
+VARIABLES pc, disk, buf, open, wrote, ended, how,
+          kAt, kKind        \* prediction mode only: where and how the fault is placed (0 / "none" otherwise)
 vars == <<pc, disk, buf, open, wrote, ended, how>>
 
 \* file contents are records so that they are comparable: the old file, no file, or the first chunks of a new text
@@ -76,11 +77,26 @@ FlushAll(d, b, S) == IF S = {} THEN d ELSE LET p == CHOOSE p \in S : TRUE IN Flu
 Raise == /\ ~ended /\ ended' = TRUE /\ how' = "raised" /\ disk' = FlushAll(disk, buf, open)
          /\ buf' = [p \in Paths |-> <<>>] /\ open' = {} /\ UNCHANGED <<pc, wrote>>
 
-Next == Do \/ AutoFlush \/ Finish \/ Die \/ Raise
-Spec == Init /\ [][Next]_vars
+Next == (Do \/ AutoFlush \/ Finish \/ Die \/ Raise) /\ UNCHANGED <<kAt, kKind>>
+Spec == (Init /\ kAt = 0 /\ kKind = "none") /\ [][Next]_<<vars, kAt, kKind>>
 
 \* after a rename the complete new text is the source file's complete text
 CompleteNew == \E p \in Paths : Total(p) > 0 /\ disk["data"] = NewText(p)
+
+\* ---- prediction mode: binds this model to the operating system --------------------------------
+\* The fault is placed right before operation kAt (as the injector does) and nothing flushes on its own
+\* (the saves used for this are far below the buffer size); the class of data.json afterwards is printed
+\* and compared by the harness with what the real run left on disk.
+pvars == <<pc, disk, buf, open, wrote, ended, how, kAt, kKind>>
+ClassOfData == IF disk["data"] = OldContent THEN "old" ELSE IF \E p \in Paths : Total(p) > 0 /\ disk["data"] = NewText(p) THEN "new" ELSE "other"
+PredInit == Init /\ kAt \in 1..(Len(Program) + 1) /\ kKind \in {"die", "raise"}
+PredNext == /\ UNCHANGED <<kAt, kKind>>
+            /\ IF ended THEN FALSE
+               ELSE IF pc = kAt /\ pc <= Len(Program) THEN (IF kKind = "die" THEN Die ELSE Raise)
+               ELSE IF pc > Len(Program) THEN Finish
+               ELSE Do
+PredSpec == PredInit /\ [][PredNext]_pvars
+PredPrint == ended => PrintT(<<"PRED", kAt, kKind, ClassOfData>>)
 
 AtomicOrNothing == ended => (disk["data"] = OldContent \/ CompleteNew)
 CompletedIsNew  == (ended /\ how = "completed") => CompleteNew
